@@ -137,7 +137,9 @@ def run_cases(args):
     os.environ["XDG_CONFIG_HOME"] = root
     out = []
     try:
-        for n, (d, u, has_file, comments) in enumerate(cases):
+        for n, case in enumerate(cases):
+            d, u, has_file, comments = case[:4]
+            given = case[4] if len(case) > 4 else None
             styles = comments
             app = "app%d" % n
             from aw_core import dirs
@@ -145,11 +147,15 @@ def run_cases(args):
             assert cdir.startswith(root), cdir
             path = os.path.join(cdir, app + ".toml")
             dtxt = to_toml(d, rnd, False, (), styles and rnd.random() < 0.5)
+            if given:
+                dtxt = given["default"]
             rec = {"d": d, "has_file": has_file, "u": u if has_file else table([]), "out": "ok", "file_written": False, "later": table([]),
                    "_texts": {"default": dtxt, "user": ""}}
             before = None
             if has_file:
                 utxt = to_toml(u, rnd, comments, (), styles) + "\n"
+                if given:
+                    utxt = given["user"]
                 rec["_texts"]["user"] = utxt
                 with open(path, "w") as f:
                     f.write(utxt)
